@@ -444,6 +444,11 @@ func (p *Profile) genRaw(rng *rand.Rand, tr *Trace, wtFiles, tracked, branches [
 	return M{"ev": "raw", "argv": av, "ru": sc.ru, "dom": false}
 }
 
+func annotated(T *Tables, ev M) M {
+	annotate(T, ev)
+	return ev
+}
+
 func initEvents() []M {
 	return []M{
 		{"ev": "init"},
@@ -471,6 +476,24 @@ func runRandom(goit, base string, T *Tables, p *Profile, rng *rand.Rand, label s
 		ev := M{"ev": "init"}
 		annotate(T, ev)
 		tr.Step(ev)
+		if p.Name == "identity" {
+			// one of the 16 ways to spread name and e-mail over the two scopes: none / local / global / both
+			for _, key := range []string{"user.name", "user.email"} {
+				vals := []string{"Local Name", "Global Name"}
+				if key == "user.email" {
+					vals = []string{"local@example.com", "global@example.org"}
+				}
+				switch rng.Intn(4) {
+				case 1:
+					tr.Step(annotated(T, M{"ev": "config", "key": EscS(key), "value": EscS(vals[0])}))
+				case 2:
+					tr.Step(annotated(T, M{"ev": "config", "global": true, "key": EscS(key), "value": EscS(vals[1])}))
+				case 3:
+					tr.Step(annotated(T, M{"ev": "config", "key": EscS(key), "value": EscS(vals[0])}))
+					tr.Step(annotated(T, M{"ev": "config", "global": true, "key": EscS(key), "value": EscS(vals[1])}))
+				}
+			}
+		}
 	}
 	for i := 0; i < p.Steps; i++ {
 		ev := p.genEvent(rng, tr)
